@@ -124,3 +124,20 @@ func VerifC03_NullChunkDigest() {
 // `mount-index --cor-file` with two concurrent readers over a store with a failing request
 // (the body is C10's): no reader is handed bytes that are not the blob's.
 func VerifC03_SparseConcurrent() { VerifC10_Concurrent() }
+
+// VerifC03_LocalHold: a chunk obtained from a local store (either format) is held while the
+// next one is fetched from the same store (prefetching, several workers): what was handed out
+// first still decodes to bytes hashing to its ID afterwards - its storage is not recycled.
+func VerifC03_LocalHold() {
+	unc := vChoose("uncompressed", 2) == 1
+	ls, _ := NewLocalStore(vTempDir(), StoreOptions{Uncompressed: unc})
+	a, b := NewChunk([]byte{0x61, 0x62}), NewChunk([]byte{0x63, 0x64})
+	vAssert(ls.StoreChunk(a) == nil && ls.StoreChunk(b) == nil, "store setup")
+	ca, err := ls.GetChunk(a.ID())
+	vAssert(err == nil, "get a")
+	cb, err := ls.GetChunk(b.ID())
+	vAssert(err == nil, "get b")
+	vCover("both-fetched")
+	verifDelivered(a.ID(), ca, nil, "LocalStore.GetChunk (held over the next fetch)")
+	verifDelivered(b.ID(), cb, nil, "LocalStore.GetChunk")
+}
